@@ -30,6 +30,9 @@ def configs(tier, seed):
       cfgs.append(dict(name='%s/%d/max%s' % (st, s, mx), strategy=st, shard=s, max=mx))
     # the drains of the real writer loop, with backend faults: whatever the writer does with a batch after draining it,
     # no datapoint may be handed out twice and no newer value may be overwritten by an older one
+    if st == 'timesorted':
+      # the strategy that honours MIN_TIMESTAMP_LAG: points on both sides of now - lag in one series
+      cfgs.append(dict(name='%s/lag30' % st, strategy=st, shard=7, max='inf', lag=30))
     cfgs.append(dict(name='%s/writer' % st, strategy=st, mode='writer', max='inf'))
     # the reactor thread's other dealings with the cache: the instrumentation tick reads the size and stores self-metrics
     cfgs.append(dict(name='%s/ticks' % st, strategy=st, mode='ticks', max='inf'))
@@ -97,7 +100,19 @@ def run_writer_config(cfg, res, world):
             case=dict(ops=ops, plan=plan, deviations=h.deviations))
 
 
-def gen_history(r, short=False, ticks=False):
+def gen_history(r, short=False, ticks=False, lag=0):
+  if lag:
+    ops, ndr = gen_history(r, short=short)
+    # timestamps around the virtual now (1000000): old enough to be drained, and younger than the lag
+    out = []
+    for o in ops:
+      if o[0] == 'store':
+        out.append(('store', o[1], (999900 if r.random() < 0.5 else 1000000 - r.choice([0, 5, 29, 31])) + (o[2] - 100)))
+      else:
+        out.append(o)
+      if r.random() < 0.1:
+        out.append(('sleep', r.choice([1, 10, 31])))
+    return out, ndr + 1
   if ticks:
     ops, ndr = gen_history(r, short=True)
     for _ in range(r.randint(1, 2)):
@@ -204,7 +219,8 @@ def oracle(h):
 
 def run_config(cfg, res):
   from vlib import boot, cachesim
-  ns = boot.boot('carbon-cache', {'CACHE_WRITE_STRATEGY': cfg['strategy'], 'MAX_CACHE_SIZE': cfg.get('max', 'inf'), 'USE_FLOW_CONTROL': False})
+  ns = boot.boot('carbon-cache', {'CACHE_WRITE_STRATEGY': cfg['strategy'], 'MAX_CACHE_SIZE': cfg.get('max', 'inf'), 'USE_FLOW_CONTROL': False,
+                                  'MIN_TIMESTAMP_LAG': cfg.get('lag', 0)})
   if cfg.get('mode') == 'writer':
     return run_writer_config(cfg, res, cachesim.World(ns, trace_files=('cache.py', 'events.py', 'writer.py')))
   if cfg.get('mode') == 'long':
@@ -254,11 +270,11 @@ def run_config(cfg, res):
   r = gen.rng(cfg['seed'], 'C02', cfg['name'])
   nh = (3, 3) if cfg['tier'] == 'quick' else (8, 10)
   for i in range(nh[0]):
-    ops, ndr = gen_history(r, short=True)
+    ops, ndr = gen_history(r, short=True, lag=cfg.get('lag', 0))
     explore(world, res, ops, ndr, r, cfg['tier'], oracle, True, cfg['strategy'])
     res.sample(dict(strategy=cfg['strategy'], ops=ops, drains=ndr), cap=2)
   for i in range(nh[1]):
-    ops, ndr = gen_history(r, short=False)
+    ops, ndr = gen_history(r, short=False, lag=cfg.get('lag', 0))
     explore(world, res, ops, ndr, r, cfg['tier'], oracle, False, cfg['strategy'])
 
 
